@@ -197,10 +197,289 @@ func c10EvalWinCert(c *Ctx, cs Case) {
 	}
 }
 
+// ---- sequences of operations on ONE descriptor value ----
+//
+// The round-trip clauses of the property speak about VALUES ("encoding a decoded value", "decoding an
+// encoded value"). A value a caller holds is not only the result of one decode of one input: it is
+// built (NewEFIVariableAuthentication2), decoded into a receiver that was used before (Unmarshal),
+// replaced by a decoded one, and edited field by field before it is encoded. A sequence applies such
+// steps to one EFIVariableAuthentication2 object and keeps, next to it, the abstract descriptor
+// (time, dwLength, revision, type, type GUID, data) that the steps define. After EVERY step the object
+// must hold exactly these fields, encode to exactly the declared-length layout of them (16 + dwLength
+// bytes), and decoding that encoding in front of a payload must give the fields back and leave the
+// payload alone.
+//
+// steps:  new | unmarshal,<descriptor> | read,<reader kind>,<descriptor> | readcert,<reader kind>,<descriptor>
+//         | time,<16 bytes> | guid,<16 bytes> | data,<bytes>   (data sets CertData and dwLength = 24 + len)
+
+type authRef struct {
+	time     []byte
+	dw       uint32
+	rev, typ uint16
+	guid     []byte
+	data     []byte
+}
+
+func (r authRef) enc() []byte { return mkAuth(r.time, r.dw, r.rev, r.typ, r.guid, r.data, nil) }
+
+func (r authRef) fields() string {
+	return fmt.Sprintf("time=%s len=%d rev=%d type=%d guid=%s data=%s", hx(r.time), r.dw, r.rev, r.typ, hx(r.guid), hx(r.data))
+}
+
+func authObjFields(d *signature.EFIVariableAuthentication2) string {
+	var tb bytes.Buffer
+	binary.Write(&tb, binary.LittleEndian, d.Time)
+	return fmt.Sprintf("time=%s len=%d rev=%d type=%d guid=%s data=%s", hx(tb.Bytes()), d.AuthInfo.Header.Length, d.AuthInfo.Header.Revision,
+		uint16(d.AuthInfo.Header.CertType), hx(wireGUID(d.AuthInfo.CertType)), hx(d.AuthInfo.CertData))
+}
+
+// refOfWire reads a generated well-formed descriptor by its declared length (independently of the library)
+func refOfWire(b []byte) (authRef, bool) {
+	if len(b) < 40 {
+		return authRef{}, false
+	}
+	dw := binary.LittleEndian.Uint32(b[16:20])
+	if dw < 24 || uint64(len(b)) < 16+uint64(dw) {
+		return authRef{}, false
+	}
+	return authRef{time: b[:16], dw: dw, rev: binary.LittleEndian.Uint16(b[20:]), typ: binary.LittleEndian.Uint16(b[22:]), guid: b[24:40], data: b[40 : 16+dw]}, true
+}
+
+func strList(v interface{}) []string {
+	switch x := v.(type) {
+	case []string:
+		return x
+	case []interface{}:
+		out := []string{}
+		for _, e := range x {
+			if s, ok := e.(string); ok {
+				out = append(out, s)
+			}
+		}
+		return out
+	}
+	return nil
+}
+
+// type GUIDs in wire form, written out from UEFI 2.8 section 32.2.4 / 8.2.2 (not taken from the code under test)
+var (
+	wirePKCS7GUID   = unhx("9dd2af4adf68ee498aa9347d375665a7")
+	wireRSA2048GUID = unhx("147471a716c677499420844712a735bf")
+)
+
+func c10Seq(c *Ctx, cs Case) {
+	steps := strList(cs["steps"])
+	payload := unhx(cs.S("payload"))
+	var obj signature.EFIVariableAuthentication2
+	ref := authRef{time: make([]byte, 16)}
+	have := false // the object holds a descriptor (something was built or decoded)
+	kinds := []string{}
+	for _, st := range steps {
+		kinds = append(kinds, strings.SplitN(st, ",", 2)[0])
+	}
+	c.Count(cs.Key(), len(steps) >= 2, "seq/"+cs.S("class"))
+	if len(cs.Key()) < 700 {
+		c.Sample(cs)
+	}
+	for i, st := range steps {
+		f := strings.Split(st, ",")
+		var out []byte
+		fail := func(what string) {
+			c.Fail(Failure{Kind: "property", What: fmt.Sprintf("(step %d of %s): %s", i, strings.Join(kinds, ","), what), Case: cs,
+				Go: clip(authObjFields(&obj) + " enc=" + hx(out)), Spec: clip(ref.fields() + " enc=" + hx(ref.enc()))})
+		}
+		c.Class("seq-step/" + f[0])
+		// a descriptor to decode: generated well-formed, the payload follows it
+		decodeStep := func(wire []byte, readerKind string, dec func(r *srcReader) error) bool {
+			nr, ok := refOfWire(wire)
+			if !ok || nr.rev != 0x0200 || nr.typ != 0x0EF1 || int(16+nr.dw) != len(wire) {
+				return false // not a step this evaluator defines
+			}
+			src := newSrcReader(readerKind, append(append([]byte{}, wire...), payload...))
+			var err error
+			var left []byte
+			panicked, pmsg := safely(func() {
+				err = dec(src)
+				if buf, isBuf := src.r.(*bytes.Buffer); isBuf {
+					left = append([]byte{}, buf.Bytes()...)
+				}
+			})
+			src.clobber() // the value must not depend on the source after the call
+			if f[0] != "readcert" {
+				ref.time = nr.time
+			}
+			ref.dw, ref.rev, ref.typ, ref.guid, ref.data = nr.dw, nr.rev, nr.typ, nr.guid, nr.data
+			have = true
+			if panicked {
+				fail("decoder panicked: " + pmsg)
+				return false
+			}
+			if err != nil {
+				fail("a well-formed descriptor was rejected: " + err.Error())
+				return false
+			}
+			if src.rest != len(payload) || (src.kind == "bytes.Buffer" && !bytes.Equal(left, payload)) {
+				fail(fmt.Sprintf("decoding left %d bytes unread, the payload has %d", src.rest, len(payload)))
+			}
+			return true
+		}
+		ok := true
+		switch {
+		case f[0] == "new":
+			safely(func() { obj = *signature.NewEFIVariableAuthentication2() })
+			var tb bytes.Buffer
+			binary.Write(&tb, binary.LittleEndian, obj.Time)
+			ref = authRef{time: tb.Bytes(), dw: 24, rev: 0x0200, typ: 0x0EF1, guid: wirePKCS7GUID}
+			have = true
+		case f[0] == "unmarshal" && len(f) == 2:
+			// the SAME object is the receiver, whatever it held before
+			ok = decodeStep(unhx(f[1]), "bytes.Buffer", func(r *srcReader) error { return obj.Unmarshal(r.r.(*bytes.Buffer)) })
+		case f[0] == "read" && len(f) == 3:
+			ok = decodeStep(unhx(f[2]), f[1], func(r *srcReader) error {
+				d, err := signature.ReadEFIVariableAuthencation2(r.r)
+				if err == nil {
+					obj = *d
+				}
+				return err
+			})
+		case f[0] == "readcert" && len(f) == 3:
+			// only the WIN_CERTIFICATE_UEFI_GUID part is decoded (from behind the timestamp) and assigned; the time stays
+			w := unhx(f[2])
+			if len(w) < 16 {
+				return
+			}
+			ok = decodeStep(w, f[1], func(r *srcReader) error {
+				io.ReadFull(r.r, make([]byte, 16))
+				a, err := signature.ReadWinCertificateUEFIGUID(r.r)
+				if err == nil {
+					obj.AuthInfo = a
+				}
+				return err
+			})
+		case f[0] == "time" && len(f) == 2 && len(unhx(f[1])) == 16:
+			b := unhx(f[1])
+			binary.Read(bytes.NewReader(b), binary.LittleEndian, &obj.Time)
+			ref.time = b
+		case f[0] == "guid" && len(f) == 2 && len(unhx(f[1])) == 16:
+			b := unhx(f[1])
+			obj.AuthInfo.CertType = guidFromWire(b)
+			ref.guid = b
+		case f[0] == "data" && len(f) == 2:
+			b := unhx(f[1])
+			obj.AuthInfo.CertData = append([]byte{}, b...)
+			obj.AuthInfo.Header.Length = uint32(24 + len(b))
+			ref.data, ref.dw = b, uint32(24+len(b))
+		default:
+			return
+		}
+		if !ok {
+			return
+		}
+		if !have {
+			continue // edits of the zero value: nothing that is a descriptor yet
+		}
+		// 1. the object holds the descriptor the steps define
+		if got := authObjFields(&obj); got != ref.fields() {
+			fail("the value does not hold the fields of the descriptor that was built / decoded / edited into it")
+		}
+		// 2. it encodes to the declared-length layout of these fields (both encoder entry points)
+		var mb bytes.Buffer
+		panicked, pmsg := safely(func() {
+			if i%2 == 0 {
+				obj.Marshal(&mb)
+			} else {
+				signature.WriteEFIVariableAuthencation2(&mb, obj)
+			}
+		})
+		if panicked {
+			fail("encoder panicked: " + pmsg)
+			return
+		}
+		out = append([]byte{}, mb.Bytes()...)
+		var tb bytes.Buffer
+		binary.Write(&tb, binary.LittleEndian, obj.Time)
+		ask := func(t []byte, l uint32, rv, ct uint16, hc, g, d []byte) (string, string) {
+			ans := c.Drv.Ask("auth.write", hx(t), fmt.Sprint(l), fmt.Sprint(rv), fmt.Sprint(ct), hx(hc), hx(g), hx(d))
+			mi := strings.Index(ans, " spec=")
+			if !strings.HasPrefix(ans, "model=") || mi < 0 {
+				c.Fail(Failure{Kind: "tie", What: "driver answer malformed", Case: cs, Model: clip(ans)})
+				return "", ""
+			}
+			return ans[len("model="):mi], ans[mi+len(" spec="):]
+		}
+		// tie: the encoder model on the value as the Go object holds it (including what the embedded header keeps)
+		model, _ := ask(tb.Bytes(), obj.AuthInfo.Header.Length, obj.AuthInfo.Header.Revision, uint16(obj.AuthInfo.Header.CertType),
+			obj.AuthInfo.Header.Certificate, wireGUID(obj.AuthInfo.CertType), obj.AuthInfo.CertData)
+		c.Trace()
+		if model != hx(out) {
+			c.Fail(Failure{Kind: "tie", What: "encoding a descriptor value: model and implementation disagree", Case: cs, Model: clip(model), Go: clip(hx(out))})
+		}
+		// oracle: the Lean Spec encoding of the abstract descriptor (and the harness's own, which must agree)
+		_, spec := ask(ref.time, ref.dw, ref.rev, ref.typ, nil, ref.guid, ref.data)
+		want := ref.enc()
+		if spec != hx(want) {
+			c.Fail(Failure{Kind: "tie", What: "Spec.encAuth and the harness encoder disagree", Case: cs, Model: clip(spec), Go: clip(hx(want))})
+		}
+		if !bytes.Equal(out, want) {
+			fail(fmt.Sprintf("encoding the value gives %d bytes that are not the %d bytes (16 + dwLength) of its declared-length layout", len(out), len(want)))
+			continue
+		}
+		// 3. decoding the encoding in front of the payload gives the fields back and leaves the payload alone
+		src := newSrcReader(readerKinds[(i+len(out))%len(readerKinds)], append(append([]byte{}, out...), payload...))
+		var d2 *signature.EFIVariableAuthentication2
+		var err error
+		p2, _ := safely(func() { d2, err = signature.ReadEFIVariableAuthencation2(src.r) })
+		src.clobber()
+		if p2 || err != nil {
+			fail("decoding the encoded value failed")
+		} else if authObjFields(d2) != ref.fields() || src.rest != len(payload) {
+			fail(fmt.Sprintf("decoding the encoded value does not reproduce the value (or leaves %d bytes instead of the %d of the payload)", src.rest, len(payload)))
+		}
+	}
+}
+
+// c10SeqShrunk evaluates a sequence; a failing one is minimised by deleting steps before it is recorded
+func c10SeqShrunk(c *Ctx, cs Case) {
+	n0 := c.NFailures()
+	c10Seq(c, cs)
+	if c.NFailures() == n0 {
+		return
+	}
+	c.mu.Lock()
+	first := c.failures[n0]
+	for _, f := range c.failures[n0:] { // a violation of the property on the Go code is what gets minimised and kept
+		if f.Kind == "property" {
+			first = f
+			break
+		}
+	}
+	c.mu.Unlock()
+	sig := failSig(first)
+	cur, best := cs, []Failure{first}
+	for changed := true; changed; {
+		changed = false
+		steps := strList(cur["steps"])
+		for i := len(steps) - 1; i >= 0 && len(steps) > 1; i-- {
+			ns := append(append([]string{}, steps[:i]...), steps[i+1:]...)
+			cand := Case{"op": "seq", "class": strings.SplitN(ns[0], ",", 2)[0] + "-first", "payload": cur["payload"], "steps": ns}
+			for _, f := range c.Probe(func(p *Ctx) { c10Seq(p, cand) }) {
+				if failSig(f) == sig {
+					cur, steps, best, changed = cand, ns, []Failure{f}, true
+					break
+				}
+			}
+		}
+	}
+	c.ReplaceFailuresFrom(n0, best)
+}
+
 func c10Eval(c *Ctx, cs Case) {
-	if cs.S("op") == "wincert" {
+	switch cs.S("op") {
+	case "wincert":
 		c10EvalWinCert(c, cs)
-	} else {
+	case "seq":
+		c10SeqShrunk(c, cs)
+	default:
 		c10EvalAuth(c, cs)
 	}
 }
@@ -273,6 +552,45 @@ func c10Gen(c *Ctx) {
 		}
 		c10EvalAuth(c, Case{"op": "auth", "class": "wf-64k", "reader": readerKinds[i%len(readerKinds)], "bytes": hx(mkAuth(randBytes(c, 16), uint32(24+n), 0x0200, 0x0EF1, pk7, randBytes(c, n), randBytes(c, 5)))})
 	}
+	// sequences of build / decode-into-the-same-object / decode-and-replace / edit steps on one value,
+	// checked after every step (see c10Seq)
+	for i := 0; i < c.N(400, 20000) && c.NFailures() < 8; i++ {
+		someData := func() []byte {
+			return randBytes(c, []int{0, 0, 1, 7, 16, 100, c.Rng.Intn(c.P(1500, 8000))}[c.Rng.Intn(7)])
+		}
+		someGUID := func() []byte {
+			return [][]byte{pk7, wireRSA2048GUID, randBytes(c, 16)}[c.Rng.Intn(3)]
+		}
+		desc := func() string {
+			d := someData()
+			return hx(mkAuth(randBytes(c, 16), uint32(24+len(d)), 0x0200, 0x0EF1, someGUID(), d, nil))
+		}
+		step := func(k int) string {
+			rk := readerKinds[c.Rng.Intn(len(readerKinds))]
+			switch k {
+			case 0:
+				return "new"
+			case 1, 2:
+				return "unmarshal," + desc()
+			case 3:
+				return "read," + rk + "," + desc()
+			case 4:
+				return "readcert," + rk + "," + desc()
+			case 5:
+				return "time," + hx(randBytes(c, 16))
+			case 6:
+				return "guid," + hx(someGUID())
+			default:
+				return "data," + hx(someData())
+			}
+		}
+		steps := []string{step(c.Rng.Intn(5))} // a value comes into being by construction or by decoding
+		for n := 1 + c.Rng.Intn(5); n > 0; n-- {
+			steps = append(steps, step(c.Rng.Intn(9)))
+		}
+		c10SeqShrunk(c, Case{"op": "seq", "class": strings.SplitN(steps[0], ",", 2)[0] + "-first", "steps": steps,
+			"payload": hx(randBytes(c, []int{0, 1, 28, 76, c.Rng.Intn(300)}[c.Rng.Intn(5)]))})
+	}
 	// library-produced descriptors are exercised by C06; plain WIN_CERTIFICATEs:
 	for i := 0; i < c.N(500, 20000) && c.NFailures() < 8; i++ {
 		n := []int{0, 1, 7, 8, 9, 100, c.Rng.Intn(3000)}[c.Rng.Intn(7)]
@@ -311,7 +629,7 @@ func c10Gen(c *Ctx) {
 
 func init() {
 	register("C10", &PropDef{
-		Rule:   "descriptors with any timestamp, certificate-data length in {0,1,7,16,100,1500,random<=64KiB, and 65511..65536 where dwLength crosses 2^16}, PKCS7 or random type GUID, followed by payloads of 0..300 bytes; variants with a wrong revision, a declared length beyond the data, and a declared length shorter than the data (surplus is payload); the .auth fixtures of the repository; plain WIN_CERTIFICATEs of all three certificate types (up to 64 KiB). Each input is handed to the decoder through a bytes.Reader, a bytes.Buffer, a one-byte-at-a-time reader, a reader that returns its last data together with io.EOF, or a half-count reader, over a private copy, and the source (buffer drained, reset and reused; backing array overwritten) is destroyed before the decoded value is inspected and re-encoded. Inputs on which the unrepaired decoder would terminate the process (body shorter than a GUID, dwLength < 8) belong to C13/C14 and are generated there. Non-trivial: longer than the fixed header; distinct = distinct byte strings.",
+		Rule:   "descriptors with any timestamp, certificate-data length in {0,1,7,16,100,1500,random<=64KiB, and 65511..65536 where dwLength crosses 2^16}, PKCS7 or random type GUID, followed by payloads of 0..300 bytes; variants with a wrong revision, a declared length beyond the data, and a declared length shorter than the data (surplus is payload); the .auth fixtures of the repository; plain WIN_CERTIFICATEs of all three certificate types (up to 64 KiB). Each input is handed to the decoder through a bytes.Reader, a bytes.Buffer, a one-byte-at-a-time reader, a reader that returns its last data together with io.EOF, or a half-count reader, over a private copy, and the source (buffer drained, reset and reused; backing array overwritten) is destroyed before the decoded value is inspected and re-encoded. Sequences on ONE EFIVariableAuthentication2 value (2..6 steps): it is built by NewEFIVariableAuthentication2 or decoded, then again decoded into as the receiver of Unmarshal (so a second, third descriptor - with empty or non-empty certificate data, dwLength 24..24+1500 - lands in an object that held another one), replaced by the result of ReadEFIVariableAuthencation2, given a new AuthInfo by ReadWinCertificateUEFIGUID, and edited (Time, type GUID, certificate data with dwLength adjusted); after every step the object must hold exactly the fields these steps define, must encode (Marshal and WriteEFIVariableAuthencation2, also compared with the encoder model and Spec.encAuth through the driver op auth.write) to the 16+dwLength bytes of their declared-length layout, and decoding that encoding in front of a payload must return the fields and leave the payload; failing sequences are shrunk by deleting steps. Inputs on which the unrepaired decoder would terminate the process (body shorter than a GUID, dwLength < 8) belong to C13/C14 and are generated there. Non-trivial: longer than the fixed header; distinct = distinct byte strings.",
 		Assume: []string{},
 		Eval:   c10Eval, Gen: c10Gen,
 	})
